@@ -722,4 +722,28 @@ theorem name_total (n m : Int) (h : Valid n m) : (Generated.C11.nameKey n m).isS
 example : Generated.C11.nameKey 6 (-4) = some (4, 2, 4, 3) ∧ Generated.C11.nameKey 4 (-4) = some (4, 1, 4, 3) := by
   constructor <;> (rw [gen_nameKey _ _ (by decide)]; rfl)
 
+
+/-- the dict keys of `zernikes_to_magnitude_angle` — the name of `(n, |m|)` without its suffix — are one-to-one on the classes:
+    two valid `(n, a)`, `(n', a')` with `a, a' ≥ 0` whose names agree in (kind, ordinal, column word) are the same class, so no
+    class overwrites another (structure level; ordinals and branch order are those of the translated `nm_to_name`) -/
+theorem magang_name_keys_injective (n a n' a' : Int) (h : Valid n a) (h' : Valid n' a') (ha : 0 ≤ a) (ha' : 0 ≤ a')
+    (k k' : Int × Int × Int × Int) (hk : Generated.C11.nameKey n a = some k) (hk' : Generated.C11.nameKey n' a' = some k')
+    (e : (k.1, k.2.1, k.2.2.1) = (k'.1, k'.2.1, k'.2.2.1)) : n = n' ∧ a = a' := by
+  rw [gen_nameKey n a h] at hk
+  rw [gen_nameKey n' a' h'] at hk'
+  have e1 := Option.some.inj hk
+  have e2 := Option.some.inj hk'
+  subst e1; subst e2
+  simp only [Prod.mk.injEq] at e
+  obtain ⟨h1, h2⟩ := h
+  obtain ⟨h1', h2'⟩ := h'
+  rcases iabs_cases a with ⟨s, ia⟩ | ⟨s, ia⟩ <;> rw [ia] at h1 h2 <;>
+  rcases iabs_cases a' with ⟨s', ia'⟩ | ⟨s', ia'⟩ <;> rw [ia'] at h1' h2' <;>
+  rcases nameKey_cases n a ⟨by rw [ia]; exact h1, by rw [ia]; exact h2⟩ with ⟨_, _, k⟩ | ⟨_, _, k⟩ | ⟨_, _, k⟩ | ⟨_, _, k⟩ | ⟨_, _, k⟩ | ⟨_, _, _, k⟩ | ⟨_, _, _, k⟩ | ⟨_, _, _, k⟩ | ⟨_, _, _, k⟩ <;>
+  rcases nameKey_cases n' a' ⟨by rw [ia']; exact h1', by rw [ia']; exact h2'⟩ with ⟨_, _, k'⟩ | ⟨_, _, k'⟩ | ⟨_, _, k'⟩ | ⟨_, _, k'⟩ | ⟨_, _, k'⟩ | ⟨_, _, _, k'⟩ | ⟨_, _, _, k'⟩ | ⟨_, _, _, k'⟩ | ⟨_, _, _, k'⟩ <;>
+  (rw [k, k'] at e; simp only at e; omega)
+
+example : Valid 6 4 ∧ Generated.C11.nameKey 6 4 = some (4, 2, 4, 2) := by
+  refine ⟨by decide, ?_⟩; rw [gen_nameKey _ _ (by decide)]; rfl
+
 end C11
